@@ -91,6 +91,43 @@ def scripted_mangle(ctx, seed, goal, hop, how, dup):
         w.close()
 
 
+def scripted_late_answer(ctx, seed, goal, hop):
+    """the answer for hop `hop` is held back until the originator's retry time-out has fired (it retries with another
+    candidate or gives up), then it arrives: an answer from an earlier attempt must not be accepted"""
+    w = R.world("line4", seed)
+    try:
+        w.create_circuit("o", goal)
+        held = None
+        for _ in range(400):
+            pending = [d for d in w.net.inflight if held is None or d.seq != held.seq]
+            if held is None:
+                for d in w.net.inflight:
+                    desc = w.describe(d)
+                    if desc["t"] == "cell" and desc["plain"] and len(d.data) > 29 and d.data[29] == 3:
+                        answers = sum(1 for x in w.net.wire if len(x.data) > 29 and x.data[22] == 0 and x.data[27] != 0
+                                      and x.data[29] == 3)
+                        if answers >= hop:
+                            held = d
+                            break
+                if held is not None:
+                    continue
+            retried = any(e["a"] == "RetryTimeout" for e in w.events)
+            if held is not None and retried and any(x.seq == held.seq for x in w.net.inflight):
+                w.deliver(held.seq)             # the late answer overtakes whatever the retry has sent
+                held = type("gone", (), {"seq": -1})()
+                continue
+            if pending:
+                w.deliver(pending[0].seq)
+                continue
+            if w.now_ms() > 90000 or w.fire_next_timer() is None:
+                break
+        tr = {"events": w.events, "topology": "line4", "seed": seed, "profile": "late-answer g%d h%d" % (goal, hop)}
+        K.check_escapes(ctx, w, tr, "late-answer")
+        return tr, w.header()
+    finally:
+        w.close()
+
+
 def run(tier, seed, replay=None):
     setup_repo_path()
     ctx = Ctx(PID, tier, seed, "model_checking")
@@ -123,6 +160,12 @@ def run(tier, seed, replay=None):
         tr, hdr2 = scripted_mangle(ctx, seed * 100 + i, goal, hop, how, dup)
         scr.append(tr)
     K.validate_family(ctx, PID, scr, "line4", hdr2, "mangle-every-position", NONTRIVIAL)
+    late = []
+    for i, (goal, hop) in enumerate([(1, 1), (2, 1), (2, 2), (3, 2), (3, 3)] if tier == "quick" else
+                                    [(g, h) for g in (1, 2, 3) for h in range(1, g + 1)] * 3):
+        tr, hdr3 = scripted_late_answer(ctx, seed * 100 + 50 + i, goal, hop)
+        late.append(tr)
+    K.validate_family(ctx, PID, late, "line4", hdr3, "late-answer", NONTRIVIAL | {"Deliver"})
     ctx.note("scripted", {"runs": len(scr), "manipulations": sum(1 for t in scr for e in t["events"] if e["a"] == "MangleAnswer")})
     bg.collect(ctx)
     return ctx.finish()
